@@ -526,6 +526,36 @@ def main():
                 raise Shape("convert_with_mode arm not understood: " + body[:60])
         if set(accepts) != set(LEAN_MODE):
             raise Shape("convert_with_mode: modes %s" % sorted(accepts))
+        # ---- ExtMetadataBlockLevel6::source_meta_from_l6: two `let x = self.f;`, an if/else-if chain and a match
+        l6src = strip_comments(open(os.path.join(BL, "level6.rs")).read())
+        l6b = fn_body(l6src, r"pub\s+fn\s+source_meta_from_l6\s*\(")
+        l6names = names[6]
+        alias = dict((a, f) for a, f in re.findall(r"let\s+(\w+)\s*=\s*self\.(\w+)\s*;", l6b))
+        mm_ = re.search(r"let\s+source_min_pq\s*=\s*(if\b.*?\})\s*;", l6b, flags=re.S)
+        mx_ = re.search(r"let\s+source_max_pq\s*=\s*match\s+(\w+)\s*\{(.*?)\}\s*;", l6b, flags=re.S)
+        if not mm_ or not mx_ or not re.search(r"\(\s*source_min_pq\s*,\s*source_max_pq\s*\)\s*$", l6b.strip()):
+            raise Shape("source_meta_from_l6 not understood")
+
+        def l6v(a):
+            if a not in alias or alias[a] not in l6names:
+                raise Shape("source_meta_from_l6: unknown name " + a)
+            return "(b.vals.getD %d 0)" % l6names.index(alias[a])
+        chain = mm_.group(1)
+        parts_ = re.findall(r"(?:if|else\s+if)\s+(\w+)\s*(<=|==|<|>=|>)\s*(\d+)\s*\{\s*(\d+)\s*\}", chain)
+        last_ = re.search(r"else\s*\{\s*(\d+)\s*\}\s*$", chain)
+        if not parts_ or not last_ or len(re.findall(r"\bif\b", chain)) != len(parts_):
+            raise Shape("source_meta_from_l6: min chain not understood")
+        min_expr = ""
+        for a, op_, k_, v_ in parts_:
+            min_expr += "if %s %s %s then %s else " % (l6v(a), {"<=": "≤", ">=": "≥"}.get(op_, op_), k_, v_)
+        min_expr += last_.group(1)
+        arms_ = re.findall(r"(\d+|_)\s*=>\s*(\d+)\s*,", mx_.group(2))
+        if not arms_ or arms_[-1][0] != "_":
+            raise Shape("source_meta_from_l6: max match not understood")
+        max_expr = ""
+        for k_, v_ in arms_[:-1]:
+            max_expr += "if %s == %s then %s else " % (l6v(mx_.group(1)), k_, v_)
+        max_expr += arms_[-1][1]
         # ---- constants and the L1 clamp
         l1src = strip_comments(open(os.path.join(BL, "level1.rs")).read())
         cbody = fn_body(l1src, r"fn\s+clamp_values_int\s*\(")
@@ -600,6 +630,8 @@ def main():
     o += "def modeAccepts : Dovi.Mode → Option (List Nat)\n"
     for k in ("Lossless", "ToMel", "To81", "To84", "To81MappingPreserved"):
         o += "  | %s => %s\n" % (LEAN_MODE[k], "none" if accepts[k] is None else "some " + lst(accepts[k]))
+    o += "\n/-- `ExtMetadataBlockLevel6::source_meta_from_l6` on the model's L6 block -/\n"
+    o += "def sourceMetaFromL6 (b : Dovi.Block) : Int × Int :=\n  ((%s),\n   (%s))\n" % (min_expr, max_expr)
     o += "\n/-- `ExtMetadataBlockLevel1::clamp_values_int` on (min_pq, max_pq, avg_pq); `x.clamp(lo, hi)` = `min (max x lo) hi` -/\n"
     o += "def clampL1 (cmv40 : Bool) (min_pq max_pq avg_pq : Int) : Int × Int × Int :=\n"
     for l in clamp_lets:
